@@ -1571,6 +1571,15 @@ def metacall():
                 # System Predicate string
                 return Predicate.System(arg)
 
+        if cls is Predicate:
+            # System Predicate spec, e.g. when rebuilding a sentence from
+            # its ident. System predicates are not constructed, only looked up.
+            ref = spec[0] if len(spec) == 1 else spec
+            if isinstance(ref, tuple) and len(ref) == 3:
+                for pred in Predicate.System:
+                    if pred.spec == ref:
+                        return pred
+
         # Invoked class name.
         clsname = cls.__name__
         
